@@ -32,7 +32,7 @@ ASSUMPTIONS = [
     "Measurement processes over mid-circuit-measurement values are not generated (a rebuilt qp.measure carries a fresh id by design).",
     "Matrix implication only where both objects expose a matrix through qp.matrix (channels, state preparations, matrix-free templates with work wires skip it).",
 ]
-BUDGET = {"quick": {"examples": 1500}, "thorough": {"examples": 100000, "shards": 16}}
+BUDGET = {"quick": {"examples": 1100}, "thorough": {"examples": 100000, "shards": 16}}
 SHRINK_LISTS = ("operands",)
 
 DELTAS = [1e-3, 0.1, 2 * math.pi, 4 * math.pi, -2 * math.pi, 1e-12]
@@ -464,4 +464,4 @@ def check(spec):
                            f"-> {x!r} vs {y!r}", sig=f"{sig}:{kind}", features=feats)
             labels.append("equal=>matrix-checked")
     nested = isinstance(a.get("base") or a.get("operands") or a.get("obs"), (dict, list))
-    return Result(bool(nested or _numbers(a) or a.get("kw")), labels=labels)
+    return Result(bool(nested or _numbers(a) or a.get("kw")), labels=labels + zoo_extra.coverage_labels())
